@@ -16,6 +16,24 @@ from . import graph
 from .tlc import MachineryError
 
 VERIF = Path(__file__).resolve().parent.parent
+_LAUNCHED: list = []  # (Popen, outdir) of every worker started by this process
+_LLOCK = __import__("threading").Lock()
+
+
+def cleanup() -> None:
+    """Kill every worker (process group) that is still around and remove its directory; drivers
+    call this in a ``finally`` so that a machinery failure never leaves processes behind."""
+    while _LAUNCHED:
+        p, outdir = _LAUNCHED.pop()
+        try:
+            os.killpg(p.pid, signal.SIGKILL)
+        except (ProcessLookupError, PermissionError):
+            pass
+        try:
+            p.wait(timeout=10)
+        except Exception:
+            pass
+        shutil.rmtree(outdir, ignore_errors=True)
 
 
 def tours(g: graph.Graph, max_len: int = 4000) -> list[list[int]]:
@@ -123,6 +141,8 @@ def launch(job: dict, name: str):
         cwd=VERIF, env=env, stdin=subprocess.DEVNULL, stdout=subprocess.DEVNULL, stderr=err,
         start_new_session=True,
     )
+    with _LLOCK:
+        _LAUNCHED.append((p, outdir))
     return p, outdir
 
 
@@ -138,6 +158,8 @@ def collect(p, outdir: Path, timeout: float = 600) -> dict:
             except (ProcessLookupError, PermissionError):
                 pass
             p.wait()
+            with _LLOCK:
+                _LAUNCHED[:] = [x for x in _LAUNCHED if x[0] is not p]
         stderr = (outdir / "stderr.txt").read_text()[-3000:]
         rf = outdir / "result.json"
         if p.returncode != 0 or not rf.exists():
